@@ -70,6 +70,8 @@ def build(src, g):
     table['Lexer']['attrs'] = dict(table['Lexer']['attrs'])
     table['Lexer']['attrs']['TOKENS'] = ast.List(elts=[ast.Name(id=n, ctx=ast.Load()) for n in order], ctx=ast.Load())
     ev.class_table = table
+    from .common import exception_bases
+    ev.exception_bases = exception_bases(src)
     return ev, lx
 
 
@@ -179,3 +181,169 @@ def number_literal_obligations(run: Run, rule: str, src, g):
         run.check(got == float(text), rule, construct, 'number-literal',
                   f'the number literal {text} reaches the generated code as {got!r}; it denotes {float(text)!r} (integer part, fraction '
                   f'and exponent all count)', fact=f'-> {got!r}', loc=loc)
+
+
+# ---------------------------------------------------------------------------------------------------
+# the parser: AstBuilder.parse and the `get` of the composite token classes, evaluated on the token lists of the evaluated lexer
+PARSE_PROBES = [
+    '=1', '=1+2', '=A1', '=A1+B1*2', '=(1+2)*3', '=-A1', '=10%', '="a"&"b"', '=A1>=2', '=SUM(A1:A3)', '=SUM(A1;B2)', '=SUM(A1,B2)',
+    '=IF(A1>0;"yes";"no")', '=MAX(1;MIN(2;3))', '=TODAY()', '=ROUND(1.234;2)', '=Sheet1!A1', "='My sheet'!A1:B3", '=A:B', '=TRUE',
+    # rejected: the formula ends inside an argument list, arguments the grammar does not define, leftovers
+    '=SUM(1;2', '=IF(A1>1;2', '=ROUND(1.5;', '=TODAY(', '=SUM', '=SUM(IF(A1>0;1;2)', '=1+', '=1 2', '=)', '=ROUND()', '=IF()',
+    '=LEFT("abc";1;2;3)', '=SUM(1;;2)', '=(1+2', '=1+2)', '=A1 B1',
+]
+
+
+def _composite_table(src, g):
+    """class table entries for every token class (terminals and composites) plus AstBuilder"""
+    base = src.cls('BaseToken')
+    table = {}
+    for ci in [base] + list(src.subclasses(base)):
+        table[ci.name] = {'mro': [getattr(c, 'name', str(c)) for c in src.mro(ci)], 'attrs': dict(ci.attrs),
+                          'bases': [getattr(b, 'name', str(b)) for b in src.bases(ci)],
+                          'methods': {n: m.node for n, m in ci.methods.items()}}
+    return table
+
+
+def reference_parse(g, tokens):
+    """the meaning of CompositeBaseToken.get over the productions of engine G: ordered choice, a production must be matched in
+    full, a function whose own keyword was seen and whose argument list fits no production rejects the formula"""
+    import sys
+    control = {c.name for c in g.functions()}
+
+    class Reject(Exception):
+        pass
+    memo_guard = [0]
+
+    def get(name, toks):
+        memo_guard[0] += 1
+        if memo_guard[0] > 400000:
+            raise RecursionError('reference parser budget')
+        comp = g.composites[name]
+        flag = False
+        for prod in comp.productions:
+            part, rest = [], list(toks)
+            for sym in prod:
+                if not rest:
+                    break
+                if sym == rest[0][0]:
+                    flag = name in control
+                    part.append(rest[0])
+                    rest = rest[1:]
+                elif sym in g.composites:
+                    new, rest2 = get(sym, rest)
+                    if new is None:
+                        break
+                    rest = rest2
+                    part.append(new)
+                else:
+                    break
+            if len(part) == len(prod) and part:
+                return (name, part), rest
+        if flag:
+            raise Reject(name)
+        return None, toks
+    old = sys.getrecursionlimit()
+    sys.setrecursionlimit(max(old, 20000))
+    try:
+        tok, rest = get('EntryPointToken', tokens)
+    except Reject:
+        return 'rejects'
+    finally:
+        sys.setrecursionlimit(old)
+    if tok is None or rest:
+        return 'rejects'
+    return tok
+
+
+def _shape(t):
+    if isinstance(t, tuple) and len(t) == 2 and isinstance(t[1], list):
+        return (t[0], [_shape(x) for x in t[1]])
+    return t[0] if isinstance(t, tuple) else t
+
+
+def parser_obligations(run: Run, rule: str, src, g, probes=None):
+    import sys
+    from ..finite import AV, const_av, Unknown, AbsRaise
+    if 'EntryPointToken' not in g.composites:
+        raise AnalysisError(rule, 'EntryPointToken is not a composite of the grammar model')
+    ab = src.cls('AstBuilder')
+    loc = loc_of(ab.module.path, ab.methods['parse'].node)
+    old = sys.getrecursionlimit()
+    sys.setrecursionlimit(max(old, 60000))
+    try:
+        for text in (probes if probes is not None else PARSE_PROBES):
+            ev, _ = build(src, g)
+            ev.max_depth = 400
+            table = _composite_table(src, g)
+            table['Lexer'] = ev.class_table['Lexer']
+            table['AstBuilder'] = {'mro': ['AstBuilder'], 'attrs': dict(ab.attrs), 'methods': {n: m.node for n, m in ab.methods.items()}}
+            ev.class_table = table
+            for m_ in {ab.module.path: ab.module}.values():
+                for st in m_.tree.body:
+                    if isinstance(st, ast.FunctionDef):
+                        ev.functions.setdefault(st.name, st)
+            leaves = [k for k in table if not any(k in e.get('bases', []) for e in table.values())]
+
+            def subclasses_of(cname):
+                out = [k for k in leaves if cname in table[k]['mro'][1:]]
+                if 'UndefinedToken' in table and 'UndefinedToken' not in out:
+                    out.append('UndefinedToken')
+                return AV('list', items=tuple(AV('other', val=('class', k)) for k in out))
+            for cname in table:
+                ev.class_state[(cname, 'subclasses')] = AV('func', val=('native', lambda a, c_=cname: subclasses_of(c_)))
+            # token sets added after the class statement (X.add_token_set([...]) at module level) are added here the same way
+            mods = {}
+            for ci_ in src.subclasses(src.cls('BaseToken')):
+                mods[ci_.module.name] = ci_.module
+            for m_ in mods.values():
+                for st in m_.tree.body:
+                    if isinstance(st, ast.Expr) and isinstance(st.value, ast.Call) and isinstance(st.value.func, ast.Attribute) and \
+                            st.value.func.attr == 'add_token_set':
+                        ev.exec_stmt(st, {})
+            cell = ev.new_obj('Cell', {'title': const_av(0), 'column': const_av(0), 'row': const_av(0)})
+            construct = f'AstBuilder.parse/{text!r}'
+            try:
+                toks = ev.unbox(ev.call_method('parse', [const_av(text), cell], AV('other', val=('class', 'Lexer'))))
+            except (Unknown, AbsRaise):
+                continue                      # a formula the lexer itself rejects is not a probe of the parser
+            if toks.items is None or not all(t.kind == 'obj' for t in toks.items):
+                continue
+            ref_tokens = [(t.val[2],) for t in toks.items]
+            try:
+                want = reference_parse(g, ref_tokens)
+            except RecursionError:
+                continue
+            want = _shape(want) if want != 'rejects' else want
+            try:
+                tree = ev.call_class_func(table['AstBuilder']['methods']['parse'], AV('other', val=('class', 'AstBuilder')), [toks, cell])
+
+                def shape(v):
+                    if v.kind != 'obj':
+                        raise Unknown(f'a node of the tree that is not a token: {v!r}')
+                    val = ev.obj_attrs(v).get('value')
+                    if v.val[2] in g.composites and val is not None and val.items is not None:
+                        return (v.val[2], [shape(x) for x in val.items])
+                    return v.val[2]
+                got = shape(tree)
+            except Unknown as u:
+                raise AnalysisError(rule, f'{construct}: the abstraction cannot follow the parser ({u})')
+            except AbsRaise as e:
+                got = 'rejects' if e.exc in _library_exception_names(src) else f'raises {e.exc}'
+            run.check(got == want, rule, construct, 'parse-tree',
+                      f'the parser turns {text!r} into {_tree(got)}; ordered choice over the productions, each matched in full, a function '
+                      f'whose argument list fits no production rejected with the parser exception: {_tree(want)}', fact=f'-> {_tree(got)[:120]}',
+                      loc=loc)
+    finally:
+        sys.setrecursionlimit(old)
+
+
+def _library_exception_names(src):
+    from .common import library_exceptions
+    return library_exceptions(src)
+
+
+def _tree(t):
+    if isinstance(t, tuple):
+        return t[0].replace('Token', '') + '(' + ' '.join(_tree(x) for x in t[1]) + ')'
+    return t.replace('Token', '') if isinstance(t, str) else repr(t)
